@@ -173,7 +173,7 @@ def gen_constants():
     fixed = lambda name: (int(m.group(1)) if (m := re.search(rf"def {name} : Storage := \.fixed (\d+)", t)) else None)
     return {"bufsiz": g("bufsiz"), "readReal": fixed("readRealStorage"), "strUpper": fixed("strToUpperStorage"),
             "prettyCap": g("prettyCap"), "prettyGuard": g("prettyGuard"), "entNode": g("entNodeCap"),
-            "entNmArr": fixed("entNmArrStorage"), "getlineN": g("findHeaderGetlineN"), "comment": g("maxCommentLength")}
+            "entNmArr": fixed("entNmArrStorage"), "nms": fixed("nmsStorage"), "getlineN": g("findHeaderGetlineN"), "comment": g("maxCommentLength")}
 
 
 def around(*centres, extra=()):
@@ -204,7 +204,10 @@ def site_requests(k, thorough):
                 req.append(("pretty", n, f"pretty - {n} {us}"))
     for n in around(bs, bs + 1, extra=[0, 3, 100] + big):
         req.append(("entnode", n, f"entnode - {n}"))
-    for n in around(64, k["entNmArr"], extra=[0, 1, 2, 10, 200, 2000]):
+    # part counts around the caller's array, the caller's cap and the callee's (STEPcomplex ctor) capacity — the cap on the
+    # number of names is a two-site invariant, so the callee capacity + 1 is probed whatever the caller looks like
+    for n in around(64, k["entNmArr"], extra=[0, 1, 2, 10, 200, 2000, bs, bs + 1, bs + 2, bs + 4, (k["nms"] or bs + 1),
+                                            (k["nms"] or bs + 1) + 1] + ([20000, 65, 1000] if thorough else [])):
         req.append(("subsuper", n, f"subsuper - {n}"))
     return req
 
@@ -246,7 +249,7 @@ def loop_requests(ctx, quick, k):
 def function_level(ctx, real, quick, k):
     """sites + loops against the model.  Returns True when everything agrees and nothing died."""
     clean = True
-    sites = site_requests(k, not quick)
+    sites = site_requests(k, (not quick) or getattr(ctx, "extract_failed", False) or not getattr(ctx, "proof_ok", True))
     lines = [r[2] for r in sites]
     loops = loop_requests(ctx, quick, k)
     t0 = time.time()
@@ -272,7 +275,8 @@ def function_level(ctx, real, quick, k):
             n_min, line_min, a_min = bisect_site(real, fn, line, n, a)
             pm = min((r[0] for r in pred), default=None)
             what = (f"{fn}: {a_min['fail']} in {a_min['where']} at parameter {n_min} (request `{line_min}`); "
-                    f"model predicts first overflow at {pm if pm is not None else 'no length (safe)'}")
+                    f"model predicts first overflow at {pm if pm is not None else 'no length (safe)'}"
+                    + (" [extractor failed: model still uses the table of the last successful extraction]" if getattr(ctx, "extract_failed", False) else ""))
             ctx.violation(f"fn:{fn}:{a_min['fail']}@{a_min['where']}", what,
                           {"kind": "fn", "schema": real.schema, "request": line_min, "sanitizer": a_min["err"][-1200:],
                            "model": m, "how": "echo '0 <request>' | h_p21safe fn   (ASan+UBSan build)"})
@@ -410,7 +414,14 @@ class Mut:
         self.base, self.toks, self.cls, self.idx, self.param, self.aux = base, toks, cls, idx, param, aux
 
     def with_param(self, p):
-        return Mut(self.base, self.toks, self.cls, self.idx, p, self.aux)
+        m = Mut(self.base, self.toks, self.cls, self.idx, p, self.aux)
+        m.many = getattr(self, "many", False)
+        return m
+
+    def with_record(self, rec):
+        """many-parts stream: one instance `#9000=(P0()P1()…P<n-1>())` with distinct names no schema knows"""
+        self.many = True
+        return self
 
     def data(self):
         t, i, p = list(self.toks), self.idx, self.param
@@ -431,6 +442,8 @@ class Mut:
             t[i:i] = [b")" * p]
         elif c == "truncate":
             return b"".join(t)[:p]
+        elif c == "parts" and getattr(self, "many", False):
+            t[i:i + 1] = [b"#9000=(" + b"".join(b"P%d()" % j + (b"\n" if j % 16 == 15 else b"") for j in range(p)) + b");\n"]
         elif c == "parts":
             t[i:i + 1] = [self.aux * p]
         elif c == "replace":
@@ -457,7 +470,7 @@ COMBOS = [b"A1(2.5)A2('s')BASE(1)", b"A1(2.5)", b"B1(.RED.)C1((1))", b"BASE(1)BA
           b"A1(2.5)/*c*/BASE(9)", b"1A(2)BASE(9)", b"A1 (2.5) BASE (9)"]
 
 
-def mutants(ctx, base, data, n_random, lengths, trunc_every, bs):
+def mutants(ctx, base, data, n_random, lengths, trunc_every, bs, parts_counts=(2, 63, 64, 65, 66, 200, 3000, 8193)):
     toks = tokenize(data)
     assert b"".join(toks) == data
     idx = [i for i, t in enumerate(toks) if kind_of(t) != "ws"]
@@ -496,7 +509,7 @@ def mutants(ctx, base, data, n_random, lengths, trunc_every, bs):
                 continue
             part = b"".join(toks[j:first_end + 1])
             toks2 = toks[:j] + [b"".join(toks[j:e])] + toks[e:]
-            for n in (2, 63, 64, 65, 66, 200, 3000):
+            for n in parts_counts:
                 out.append(Mut(base, toks2, "parts", j, n, part))
             for cb in COMBOS:
                 out.append(Mut(base, toks2, "replace", j, None, cb))
@@ -547,8 +560,16 @@ def model_threshold(ctx, mut):
         ans = run_model(ctx, [f"readreal {hexs(b'1' * 400)}"])[0]
         return ("first overflow at a number lexeme of %d characters" % k["readReal"]) if (ans or "").startswith("overflow") and k["readReal"] else "no overflow at any length"
     if fam == "parts":
-        ans = run_model(ctx, ["subsuper - 3000"])[0]
-        return ("first overflow at %d parts" % k["entNmArr"]) if (ans or "").startswith("overflow") and k["entNmArr"] else "no overflow for any number of parts"
+        lo, hi = 0, 200000
+        if not (run_model(ctx, [f"subsuper - {hi}"])[0] or "").startswith("overflow"):
+            return "no overflow for any number of parts"
+        while lo < hi:
+            mid = (lo + hi) // 2
+            if (run_model(ctx, [f"subsuper - {mid}"])[0] or "").startswith("overflow"):
+                hi = mid
+            else:
+                lo = mid + 1
+        return "first overflow at %d parts (%s)" % (lo, run_model(ctx, [f"subsuper - {lo}"])[0])
     if fam in ("stretch-enum",):
         ans = run_model(ctx, ["strupper - 100000"])[0]
         return "first overflow at %d characters" % k["strUpper"] if (ans or "").startswith("overflow") and k["strUpper"] else "no overflow at any length"
@@ -572,8 +593,16 @@ def file_level(ctx, real, files, quick, ms_per_byte):
         data = open(os.path.join(CORPUS, fname), "rb").read()
         n_random = 250 if quick else 6000
         trunc = (1 if len(data) < 1500 else max(1, len(data) // 160)) if quick else 1
-        for m in mutants(ctx, fname, data, n_random, lengths, trunc, bs):
+        pc = (2, 63, 64, 65, 66, 200, 3000, bs + 1) if quick else (2, 63, 64, 65, 66, 200, 1000, 3000, bs, bs + 1, bs + 2, 20000)
+        for m in mutants(ctx, fname, data, n_random, lengths, trunc, bs, pc):
             all_muts.append((mode, m))
+    for fname, mode in files[:1]:
+        data = open(os.path.join(CORPUS, fname), "rb").read()
+        toks = tokenize(data)
+        i = next(i for i, t in enumerate(toks) if t == b"ENDSEC" and b"DATA" in b"".join(toks[:i]))
+        for n in ((65, bs + 1) if quick else (65, 1000, bs, bs + 1, 20000)):
+            rec = b"#9000=(" + b"".join(b"P%d()" % j + (b"\n" if j % 16 == 15 else b"") for j in range(n)) + b");\n"
+            all_muts.append((mode, Mut(fname, toks[:i] + [b"P()"] + toks[i:], "parts", i, n, None).with_record(rec)))
     items = []
     for mode, m in all_muts:
         d = m.data()
@@ -714,13 +743,18 @@ def prepare(ctx):
     files, errs = L.regenerate(["c05_buffers"], repo=B.REPO)
     for e in errs:
         ctx.broken.append(("extract", e))
-    if not errs:
+    ctx.extract_failed = bool(errs)
+    # when a shape is no longer recognised the table of the last successful extraction stays in place: the model then
+    # still answers with the *previous* capacities, and the violation search below probes every modelled site at those
+    # capacities, capacity+1 … and far beyond (thorough-size sweeps), before `no-failing-input-found` is reported
+    if os.path.exists(os.path.join(L.GEN_DIR, "C05Buffers.lean")):
         ok, out = L.lake_build(["m_c05"])
         if not ok:
             ctx.broken.append(("lake build m_c05", out[-2000:]))
     proof_ok = False
     if not errs:
         proof_ok = ctx.lean("StepModel.Props.C05", exes=["m_c05"], extractors=None)
+    ctx.proof_ok = proof_ok
     return proof_ok
 
 
